@@ -14,7 +14,9 @@ from ..ctx import Discrepancy
 META = {
     "rule": "stream 'enum': every string over the alphabet {a,b,<,>,','} "
             "up to length L (quick 8, thorough 11), each visited exactly "
-            "once (distinct by construction, counted); stream 'gen': random "
+            "once (distinct by construction, counted), and every string over "
+            "{e-acute, blank, newline, <, >, ','} up to length 6 (thorough "
+            "7); stream 'gen': random "
             "grammar trees (depth<=60, <=120 siblings, recursion path cost "
             "<=400) printed to names, plus single-token mutations. "
             "Non-trivial = contains at least one delimiter character; "
@@ -229,6 +231,27 @@ def run(ctx):
                         if len(ctx.samples) < 2 and n >= 6:
                             ctx.sample({"stream": "enum", "input": s,
                                         "verdict": "accepted"})
+                    if idx % pub_stride == 0:
+                        check_public(ctx, s)
+                except Discrepancy as d:
+                    ctx.violation(d.prop, d.mechanism, d.what, None,
+                                  d.detail)
+        # second complete enumeration over an alphabet with a blank, a
+        # non-ASCII letter and a newline as name characters (shorter bound)
+        L2 = ctx.params.get("enum2_len", 6)
+        for n in range(1, L2 + 1):
+            for tup in itertools.product("é \n<>,", repeat=n):
+                idx += 1
+                if idx % ctx.nworkers != ctx.worker:
+                    continue
+                s = "".join(tup)
+                ctx.count("cases")
+                ctx.count("enum2:strings")
+                if "<" in s or ">" in s or "," in s:
+                    nontriv += 1
+                try:
+                    if check_one(ctx, s, "enum2"):
+                        ctx.count("enum2:accepted")
                     if idx % pub_stride == 0:
                         check_public(ctx, s)
                 except Discrepancy as d:
